@@ -2208,7 +2208,7 @@ def preprocess_file(
         parentheses and several uses may share a line."""
         def_args, body = def_value
         params = [arg.strip() for arg in def_args.split(",")]
-        name_regex = re.compile(rf"\b{def_name}\s*\(")
+        name_regex = re.compile(rf"\b{re.escape(def_name)}\s*\(")
         param_regex = re.compile(
             r"\b(" + "|".join(re.escape(p) for p in params if p) + r")\b"
         )
@@ -2474,7 +2474,7 @@ def preprocess_file(
             else:
                 def_regex = def_regexes.get(def_tmp)
                 if def_regex is None:
-                    def_regex = re.compile(rf"\b{def_tmp}\b")
+                    def_regex = re.compile(rf"\b{re.escape(def_tmp)}\b")
                     def_regexes[def_tmp] = def_regex
                 # Object-like macro bodies are literal text, not re.sub templates
                 line_new, nsubs = def_regex.subn(value.replace("\\", "\\\\"), line)
